@@ -284,6 +284,54 @@ def extra_obligations(mods, tier, seed):
     out.append({"name": "C18/host/frames-are-row-confined-and-tick-never-raises", "status": "discharged" if not bad3 else "sat", "backend": "bounded-native", "bounded": True,
                 "where": f"{n3} host runs (4 styles x 5 widths x text lengths around the width x loop on/off x tick strides): every frame after animate() and each tick() has rows of exactly "
                          "`cols` cells, the other row is untouched, nothing raises", "time": round(time.time() - t2, 3), "replay": {"bad": bad3[:4]}, "replay_confirmed": bool(bad3)})
+    # host model, executed (BOUNDED): an animate() call that raises (row outside the display, unknown style) has no effect - later ticks do
+    # not raise, the animations that were running keep running, no row changes
+    t2b = time.time()
+    bad4, n4 = [], 0
+    import copy as _copy
+    for style in STY:
+        for cols, rows in ((16, 2), (20, 4), (8, 1)):
+            for bad_call in ({"row": rows}, {"row": rows + 3}, {"row": -1}, {"row": -rows - 1}, {"animation": "wobble"}, {"animation": ""}):
+                for running in (False, True):
+                    n4 += 1
+                    try:
+                        lcd = HostLCD(rs=1, en=2, d4=3, d5=4, d6=5, d7=6, cols=cols, rows=rows)
+                        lcd.line(0, "static")
+                        if running:
+                            lcd.animate("blink", 0, "run", speed_ms=50, loop=True)
+                        before_buf = list(lcd.buffer)
+                        before_keys = sorted(map(str, getattr(lcd, "animations", {}).keys())) if hasattr(lcd, "animations") else None
+                        raised = None
+                        try:
+                            lcd.animate(bad_call.get("animation", style), bad_call.get("row", 0), "hello world", speed_ms=50, loop=False)
+                        except ValueError as ex:
+                            raised = ex
+                        if raised is None:
+                            if "animation" in bad_call or not (0 <= bad_call["row"] < rows):
+                                if "animation" in bad_call or bad_call["row"] >= rows or bad_call["row"] < -rows:
+                                    bad4.append({"style": style, "display": [cols, rows], "call": bad_call, "problem": "the invalid animate() call did not raise ValueError"})
+                            continue
+                        prob = None
+                        if list(lcd.buffer) != before_buf:
+                            prob = "the rejected call changed the display buffer"
+                        elif before_keys is not None and sorted(map(str, lcd.animations.keys())) != before_keys:
+                            prob = f"the rejected call left a record in the animation registry: {sorted(map(str, lcd.animations.keys()))}"
+                        else:
+                            frames = []
+                            for k in range(1, 12):
+                                lcd.tick(1 + 60 * k)
+                                frames.append(list(lcd.buffer))
+                            if running and len({tuple(f) for f in frames}) < 2:
+                                prob = "the animation that was running stopped advancing after the rejected call"
+                            if not running and any(f != before_buf for f in frames):
+                                prob = "ticks after the rejected call changed the display"
+                    except Exception as ex:
+                        prob = f"{type(ex).__name__}: {ex} (raised by tick() after a rejected animate())"
+                    if prob:
+                        bad4.append({"style": style, "display": [cols, rows], "call": bad_call, "animation_running": running, "problem": prob})
+    out.append({"name": "C18/host/rejected-animate-has-no-effect", "status": "discharged" if not bad4 else "sat", "backend": "bounded-native", "bounded": True,
+                "where": f"{n4} host runs (4 styles x 3 geometries x rows outside the display / unknown styles x with and without a running animation): the failing call changes nothing, "
+                         "later ticks never raise and running animations keep advancing", "time": round(time.time() - t2b, 3), "replay": {"bad": bad4[:4]}, "replay_confirmed": bool(bad4)})
     # executed on the firmware mock next to the host model (BOUNDED): an animation whose animate() call is not executed draws nothing; static
     # text of another row / the same row stays as the host keeps it
     from progs import devdiff
